@@ -196,6 +196,34 @@ def run(tier):
             kind = "reader-stuck" if r.get("res") else "survived-malformed-packet" if not r["died"] else "death-not-reported"
             verd.witness(kind, sc["desc"][:60], "%s: died=%s Err() nil=%s Closed callback with that error=%s %s" % (sc["desc"], r["died"], r["errnil"], r["cbclosed"], r.get("res", "")),
                          {"scenario": sc, "result": r})
+    # answers to an OUTSTANDING request that do not fit it (more / fewer / no return codes than filters, invalid codes,
+    # acknowledgements of another kind or with trailing bytes for the same identifier): bytes from the broker like any
+    # other -- the client does not panic, and once the connection has ended the outstanding call has returned
+    pend = []
+    codesets = [[], [0], [1, 2], [0, 1, 2], [0x80, 0x80, 0x80, 0x80], [0, 1, 2, 0x80, 0, 1], [3], [0xFF, 0xFF], [0] * 40]
+    for kind in ("sub1", "sub2", "sub3", "unsub", "pub1", "pub2"):
+        for cs in codesets:
+            for t in (0x90, 0x92):
+                for d in (0, 1):
+                    pend.append({"id": "n%d" % len(pend), "mode": "stream", "pending": kind, "acks": [{"t": t, "d": d, "x": cs}], "desc": "pending %s answered by %#x id+%d %s" % (kind, t, d, cs)})
+        for t in (0x40, 0x50, 0x62, 0x70, 0xB0):
+            for x in ([], [0], [0, 0, 0]):
+                pend.append({"id": "n%d" % len(pend), "mode": "stream", "pending": kind, "acks": [{"t": t, "d": 0, "x": x}], "desc": "pending %s answered by %#x +%d bytes" % (kind, t, len(x))})
+    if tier == "quick":
+        pend = [p_ for i_, p_ in enumerate(pend) if i_ % 2 == vlib.seed() % 2 or p_["acks"][0]["d"] == 0 and p_["acks"][0]["t"] == 0x90]
+    res_n, crashed_n = run_driver(binary, pend, 25)
+    culprits_n, survivors_n = isolate_crashes(binary, crashed_n)
+    pendid = {s_["id"]: s_ for s_ in pend}
+    for sc, text in culprits_n:
+        where, msg = crash_where(text)
+        verd.witness("panic", where, "%s on %s" % (msg, sc["desc"]), {"scenario": sc, "crash": text[-3000:]})
+    if crashed_n and not culprits_n:
+        raise vlib.Infra("a driver batch (outstanding requests) died but no single scenario reproduces the crash")
+    for r in res_n + survivors_n:
+        sc = pendid[r["id"]]
+        if r.get("res") or not r.get("callret"):
+            verd.witness("reader-stuck" if r.get("res") else "call-stuck-after-end", sc["desc"][:60], "%s: %s; outstanding call returned: %s" % (sc["desc"], r.get("res") or "connection ended", r.get("callret")),
+                         {"scenario": sc, "result": r})
     res_s, crashed = run_driver(binary, streams, 50)
     crashed = crashed + crashed_e
     res_p, crashed_p = run_driver(binary, parses, 2000)
@@ -224,7 +252,8 @@ def run(tier):
     rc = verd.finish()
     distinct = len({json.dumps(r["bytes"]) for r in res_s if r["died"] or r["ho"]}) + len({(r["t"], r["f"], tuple(r["body"])) for r in res_p if r["res"] != "ok"})
     vlib.write_evidence(PID, tier, "exploration", {
-        "evaluations": len(results), "distinct_nontrivial": distinct,
+        "evaluations": len(results) + len(res_n) + len(res_e), "distinct_nontrivial": distinct,
+        "early_streams": len(res_e), "answers_to_outstanding_requests": len(res_n) + len(survivors_n),
         "rule": "streams: every sequence of <=%d of the templates of FramerGen.tla (incl. string length fields at the 16-bit edges) + seeded mutations/random bytes (<=300 bytes), delivered at once or in small chunks; parsers: all (type, flags, body<=%d bytes over {0,1,2,'a',0x80,0xFF}); non-trivial = the client ended the connection or handed over a message / the parser rejected"
                 % (2 if tier == "quick" else 3, 3 if tier == "quick" else 4),
         "streams": len(res_s), "parser_vectors": len(res_p), "crashed_batches": len(crashed) + len(crashed_p), "templates": len(tpl),
